@@ -93,6 +93,11 @@ func (l *DList[T]) InsertBefore(node *DoubleNode[T], value T) error {
 		newNode.prev.next = newNode
 	} else {
 		newNode.next = &head
+		// The old first node now lives in head, right after the new first node stored in the list itself.
+		head.prev = &l.DoubleNode
+		if head.next != nil {
+			head.next.prev = &head
+		}
 		// Move the pointer to the new node.
 		l.DoubleNode = *newNode
 	}
